@@ -534,6 +534,37 @@ func c14Sources(r *core.Run, dir string) {
 		p.End()
 		r.Count("source_reader_programs", 1)
 	}
+	// (5) writers: an UPDATE gives the table new cells; what was read from it before - the rows of an open cursor over a
+	// temporary table, the restore point a ROLLBACK returns to, the other column of SET a = b, b = a - keeps the old values
+	{
+		p, err := sut.NewProc(dir, nil)
+		if err != nil {
+			core.Fail("proc: %v", err)
+		}
+		p.Exec("DECLARE wt VIEW (c1, c2, d) AS " + src + "; COMMIT;")
+		before, _ := rowsOf(p, "SELECT c1, c2, d FROM wt;")
+		p.Exec("DECLARE wc CURSOR FOR SELECT c1, c2, d FROM wt; OPEN wc; VAR @x, @y, @z;")
+		p.Exec("UPDATE wt SET d = d + 1000;")
+		var fetched []string
+		for k := 0; k < len(before); k++ {
+			rr := p.Exec("FETCH wc INTO @x, @y, @z; SELECT @x, @y, @z;")
+			if ts, err := sut.ParseJSONTables(rr.Out); rr.Err == "" && err == nil && len(ts) > 0 && len(ts[0].Rows) > 0 {
+				var cs []string
+				for _, c := range ts[0].Rows[0] {
+					cs = append(cs, c.String())
+				}
+				fetched = append(fetched, strings.Join(cs, "|"))
+			}
+		}
+		add("reuse:writer:cursor-over-updated-table", "DECLARE wc CURSOR FOR SELECT .. FROM wt; OPEN wc; UPDATE wt SET d = d + 1000; FETCH wc ..", [][]string{before}, fetched)
+		p.Exec("ROLLBACK;")
+		after, _ := rowsOf(p, "SELECT c1, c2, d FROM wt;")
+		add("reuse:writer:rollback-of-updated-temporary-table", "UPDATE wt SET d = d + 1000; ROLLBACK; SELECT .. FROM wt", [][]string{before}, after)
+		p.Exec("UPDATE wt SET c1 = d, d = c1;")
+		sw, _ := rowsOf(p, "SELECT d, c2, c1 FROM wt;")
+		add("reuse:writer:swap-assignment", "UPDATE wt SET c1 = d, d = c1; SELECT d, c2, c1 FROM wt", [][]string{before}, sw)
+		p.End()
+	}
 	reported := map[string]bool{}
 	for _, i := range validateRel(r, evs) {
 		e := evs[i]
